@@ -170,11 +170,18 @@ type LangID uint16
 // Derived languages not exactly supported are mapped to their primary part : for instance,
 // 'fr-be' is mapped to 'fr'
 func NewLangID(l Language) (LangID, bool) {
-	if i, ok := binarySearchLang(l, languagesInfos[:knownLangsCount]); ok {
-		return LangID(i), true
+	known, okKnown := binarySearchLang(l, languagesInfos[:knownLangsCount])
+	if okKnown && languagesInfos[known].lang == l { // exact match
+		return LangID(known), true
 	}
-	if i, ok := binarySearchLang(l, languagesInfos[knownLangsCount:]); ok {
-		return knownLangsCount + LangID(i), true
+	// an exact match in the second part of the table wins over
+	// a match of the primary part in the first one
+	other, okOther := binarySearchLang(l, languagesInfos[knownLangsCount:])
+	if okOther && (!okKnown || languagesInfos[int(knownLangsCount)+other].lang == l) {
+		return knownLangsCount + LangID(other), true
+	}
+	if okKnown {
+		return LangID(known), true
 	}
 	return 0, false
 }
